@@ -105,7 +105,7 @@ Proof.
   assert (HB : 1 <= BS) by (unfold BS; lia).
   assert (HA : All BS cf).
   { replace cf with (fst (run_gen BS true true c)) by (rewrite E; reflexivity). unfold run_gen.
-    apply invariant_exec_full; [exact (All_step BS HB true)|exact (All_init BS HB true (fst c))]. }
+    apply invariant_exec_full; [exact (All_step BS HB true)|exact (All_init BS HB true (progs_of c))]. }
   destruct HA as (_ & _ & _ & _ & _ & [H5 _]). specialize (H5 id).
   change (count_occ NN_dec (map vid (cleared_out (map (fun l => rev (results l)) (snd cf)))) id)
     with (cntl id (cleared_out (map (fun l => rev (results l)) (snd cf)))).
